@@ -4,7 +4,7 @@ instance handed in, so a run replays exactly from its seed.
 """
 import itertools
 
-SPACES = [' ', ' ', ' ', '\t', '\n', ' ', ' ', '　', '\x1c', '\x85', ' ']
+SPACES = [' ', ' ', ' ', '\t', '\n', '\r\n', ' ', ' ', '　', '\x1c', '\x85', ' ']
 
 # words chosen to collide: shared prefixes / suffixes / infixes, operator words, non-ASCII letters
 # whose lower-case form has another length (U+0130) or is a digraph (U+01C5)
